@@ -48,14 +48,16 @@ def make_classes():
 
     class CustomAggr(MetricBaseAggregated):
         """aggregated metric declaring mean/var/cov of its columns; records what it receives"""
-        def __init__(self, cols_, log):
+        def __init__(self, cols_, log, extra_cov=()):
             self.cols_ = tuple(cols_)
             self.log = log
+            self.extra_cov = tuple(extra_cov)     # a covariance / variance declared WITHOUT the means of its columns
 
         @property
         def aggr_cols(self):
-            return AggrCols(has_count=True, mean_cols=self.cols_, var_cols=self.cols_[:1],
-                            cov_cols=tuple((a, b) for a in self.cols_ for b in self.cols_ if a > b))
+            return AggrCols(has_count=True, mean_cols=self.cols_, var_cols=self.cols_[:1] + self.extra_cov[:1],
+                            cov_cols=tuple((a, b) for a in self.cols_ for b in self.cols_ if a > b)
+                            + ((self.extra_cov,) if len(self.extra_cov) == 2 else ()))
 
         def analyze_aggregates(self, control, treatment):
             self.log.append((control, treatment))
@@ -153,9 +155,11 @@ def standalone(chk: Check, n):
                          "unused": ["q"] * nrows})
         logs = {}
         metrics = {}
-        k = rng.randint(1, 6)
+        k = rng.randint(1, 6) if i % 3 else rng.randint(2, 6)
         for j in range(k):
             kind = rng.choice(["mean", "mean_cov", "ratio", "ratio_cov", "sr", "caggr", "cgran", "quantile"])
+            if i % 3 == 0 and j < 2:
+                kind = ("ratio", "caggr")[j]      # a pooling metric next to a user-defined one (regression: 412228c)
             cs = rng.sample(colnames, 4)
             name = f"m{j}_{kind}"
             if kind == "mean":
@@ -170,7 +174,8 @@ def standalone(chk: Check, n):
                 metrics[name] = tt.SampleRatio()
             elif kind == "caggr":
                 logs[name] = []
-                metrics[name] = CustomAggr(cs[:rng.randint(1, 3)], logs[name])
+                metrics[name] = CustomAggr(cs[:rng.randint(1, 3)], logs[name],
+                                           extra_cov=(cs[3], cs[2]) if (rng.random() < 0.5 or i % 3 == 0) else ())
             elif kind == "cgran":
                 logs[name] = []
                 metrics[name] = CustomGran(cs[:rng.randint(1, 2)], logs[name])
